@@ -73,6 +73,15 @@ fn do_partial_decode<'a>(
 
             let data_type = decoded_representation.data_type();
             match data_type {
+                DataType::UInt16 => {
+                    pcodec_partial_decode!(u16);
+                }
+                DataType::Int16 => {
+                    pcodec_partial_decode!(i16);
+                }
+                DataType::Float16 => {
+                    pcodec_partial_decode!(half::f16);
+                }
                 DataType::UInt32 => {
                     pcodec_partial_decode!(u32);
                 }
